@@ -164,6 +164,35 @@ Proof. exact geometry_all. Qed.
 Print Assumptions C11_geometry_partial.
 Close Scope Q_scope.
 
+(* the sqrt step without sqrt: for ANY number s with s^2 = |n|^2, s <> 0 (the library's normal_direction_norms), the
+   vector n/s is a unit normal orthogonal to both edges with det[a b n/s] = s (right-handed for s > 0), and
+   |n/s|^2 (2 vol)^2 = |cross|^2 for vol = s/2, integration_element^2 = s^2 = det(J^T J);
+   diameter^2 |n|^2 = |a|^2 |b|^2 |a-b|^2 *)
+Open Scope Q_scope.
+Theorem C11_unit_normal_volume_sqrtfree : forall (x0 x1 x2 nrm : vec) (s : Q),
+  s * s == cross_sq x0 x1 x2 -> ~ s == 0 -> veq (vscale s nrm) (normal_dir x0 x1 x2) ->
+  dot nrm nrm == 1 /\ dot nrm (jac_a x0 x1 x2) == 0 /\ dot nrm (jac_b x0 x1 x2) == 0 /\
+  det3 (jac_a x0 x1 x2) (jac_b x0 x1 x2) nrm == s /\
+  dot nrm nrm * ((2 * (s / 2)) * (2 * (s / 2))) == cross_sq x0 x1 x2 /\
+  s * s == gram_det x0 x1 x2.
+Proof. exact unit_normal_characterisation. Qed.
+Print Assumptions C11_unit_normal_volume_sqrtfree.
+
+Theorem C11_diameter_sqrtfree : forall x0 x1 x2 : vec, ~ cross_sq x0 x1 x2 == 0 ->
+  let a := jac_a x0 x1 x2 in let b := jac_b x0 x1 x2 in
+  diameter_sq x0 x1 x2 * cross_sq x0 x1 x2 == dot a a * dot b b * dot (vsub a b) (vsub a b).
+Proof. exact diameter_sq_spec. Qed.
+Print Assumptions C11_diameter_sqrtfree.
+Close Scope Q_scope.
+
+(* CSR layout of element_neighbors / vertex_neighbors (IndexList(indices, indexptr)): row i is
+   indices[indexptr[i] : indexptr[i+1]] *)
+Theorem C11_csr_layout : forall (rows : list (list nat)) i, i < length rows ->
+  length (csr_indexptr 0 rows) = S (length rows) /\
+  lslice (nth i (csr_indexptr 0 rows) 0) (nth (S i) (csr_indexptr 0 rows) 0) (csr_indices rows) = nth i rows [].
+Proof. exact (fun rows i H => csr_rows rows 0 [] i eq_refl H). Qed.
+Print Assumptions C11_csr_layout.
+
 (* ---- refinement, segment extraction, union: for EVERY grid with in-range vertex numbers ---------------------- *)
 (* Grid.refine: sizes; old vertices kept; children inherit the domain index; the new vertex on a local edge is
    nv + (global edge number) -- hence shared between elements exactly when the edge is (conformity, with
